@@ -135,6 +135,11 @@ def cases(draw, tier):
         'inject': [draw(st.integers(2, 4)), draw(st.integers(0, 3))],
     }
     case['route'] = draw(gen.routes(nl))
+    if draw(st.integers(0, 3)) == 0:
+        blocks = [[draw(st.integers(0, 30)) for _ in range(draw(st.integers(1, 4)))] for _ in range(draw(st.integers(1, 3)))]
+        if len(blocks) >= 2 and draw(st.booleans()):
+            blocks[1] = blocks[0][:1] + blocks[1][:1]   # overlaps / nests with the first one
+        case['blocks'] = blocks
     return case
 
 
@@ -278,11 +283,19 @@ def check_minimize(case):
 
     nl = case['nl']
     c = build.build(nl, case.get('route'))
+    # named blocks on the circuit (nested / overlapping): bookkeeping the minimiser has to carry along
+    glabs = [g[0] for g in nl['gates'] if g[1] != 'INPUT']
+    for bi, members in enumerate(case.get('blocks') or []):
+        ms = list(dict.fromkeys(glabs[i % len(glabs)] for i in members)) if glabs else []
+        if ms:
+            c.make_block(f'blk{bi}', ms, ms[-1:])
     snapshot_nl = refsem.from_circuit(c)
     stored = [g.label for g in c.gates.values()]
     spos = {l: i for i, l in enumerate(stored)}
     storage_not_topological = any(spos[o] > spos[l] for l, _, ops in nl['gates'] for o in ops)
     cls = circuit_classes(nl) | {'shape:' + case['shape']}
+    if case.get('blocks'):
+        cls.add('named_blocks')
     if storage_not_topological:
         cls.add('storage_not_topological')
     unsupported = any(g[1] not in SUPPORTED + ['INPUT'] for g in nl['gates'])
